@@ -239,3 +239,20 @@ pub fn order_nondet(_on: bool) {
     crate::verif_map::set_order_nondet(_on);
 }
 
+
+/// vk_proof_models without the fmt::format stub (for harnesses whose subject is formatted text).
+#[macro_export]
+macro_rules! vk_proof_models_fmt {
+    ($(#[$extra:meta])* unwind $n:literal; fn $name:ident() $body:block) => {
+        $(#[$extra])*
+        #[cfg_attr(kani, kani::proof)]
+        #[cfg_attr(kani, kani::unwind($n))]
+        #[cfg_attr(kani, kani::stub(bumpalo::Bump::alloc_layout, crate::verif_bump::bump_alloc_layout_stub))]
+        #[cfg_attr(kani, kani::stub(bumpalo::Bump::try_alloc_layout, crate::verif_bump::bump_try_alloc_layout_stub))]
+        #[cfg_attr(kani, kani::stub(<&rust_decimal::Decimal as core::ops::Add<&rust_decimal::Decimal>>::add, crate::verif_dec::add_ref))]
+        #[cfg_attr(kani, kani::stub(<&rust_decimal::Decimal as core::ops::Sub<&rust_decimal::Decimal>>::sub, crate::verif_dec::sub_ref))]
+        #[cfg_attr(kani, kani::stub(rust_decimal::ops::cmp::cmp_impl, crate::verif_dec::cmp_impl))]
+        #[cfg_attr(kani, kani::stub(<rust_decimal::Decimal as core::fmt::Display>::fmt, crate::verif_dec::display_fmt_tiny))]
+        pub fn $name() $body
+    };
+}
